@@ -20,7 +20,7 @@ G_GROUPS = {
     "seq4": ("MC_Yata", "G_seq4.cfg", {}),
     "map4": ("MC_Yata", "G_map4.cfg", {}),
     # rich text (spec/Rich.tla): a two-unit text, then every two / three free operations ins / del / FORMAT of two authors
-    "fmt3": ("MC_YataFmt", "G_fmt3.cfg", {"filter": "fmt", "sample": {"quick": 1500, "thorough": 30000}}),
+    "fmt3": ("MC_YataFmt", "G_fmt3.cfg", {"filter": "fmt", "sample": {"quick": 1000, "thorough": 30000}}),
     # three free operations: 8.8 M states after 25 min of exhaustive search (measured), hence seeded TLC simulation (thorough tier only)
     "fmt4": ("MC_YataFmt", "G_fmt4.cfg", {"filter": "fmt", "sample": {"quick": 1500, "thorough": 40000}, "simulate": {"quick": 400, "thorough": 6000}}),
 }
@@ -32,11 +32,14 @@ D_GROUPS = {
     "d_seq4": ("MC_Yata", "D_seq4.cfg"),
     "d_map4": ("MC_Yata", "D_map4.cfg"),
     "d_nest4": ("MC_Yata", "D_nest4.cfg"),
+    # transcription of the automatic formatting clean-up (Rich.tla): every list of <= 5 / 6 items
+    "d_rich": ("MC_Rich", "D_rich5.cfg"),
+    "d_rich6": ("MC_Rich", "D_rich6.cfg"),
 }
 TIERS = {
-    "quick": {"design": ["d_seq", "d_map", "d_nest"], "gen": ["seq3", "map3", "nesta3", "nestm3", "alg3", "algm3", "script:gapdel", "script:gapdep", "script:gappar", "script:gapkey"], "random": 3,
+    "quick": {"design": ["d_seq", "d_map", "d_nest", "d_rich"], "gen": ["seq3", "map3", "nesta3", "nestm3", "alg3", "algm3", "script:gapdel", "script:gapdep", "script:gappar", "script:gapkey"], "random": 3,
               "rich": ["fmt3"] + ["script:" + f for f in RICH_FAMILIES], "rich_random": 1},
-    "thorough": {"design": ["d_seq", "d_map", "d_nest", "d_seq4", "d_map4", "d_nest4"],
+    "thorough": {"design": ["d_seq", "d_map", "d_nest", "d_seq4", "d_map4", "d_nest4", "d_rich", "d_rich6"],
                  "gen": ["seq3", "map3", "nesta3", "nestm3", "alg3", "algm3", "script:gapdel", "script:gapdep", "script:gappar", "script:gapkey", "seq4", "map4"], "random": 30,
                  "rich": ["fmt3", "fmt4"] + ["script:" + f for f in RICH_FAMILIES], "rich_random": 8},
 }
@@ -125,7 +128,7 @@ def _cache_path(*parts):
 
 
 SCRIPT_SAMPLE = {"quick": 120, "thorough": 2500}
-RICH_SCRIPT_SAMPLE = {"quick": 40, "thorough": 1500}
+RICH_SCRIPT_SAMPLE = {"quick": 30, "thorough": 1500}
 
 
 def gen_script_family(fam, tier, workdir):
